@@ -12,8 +12,8 @@ BadOf(i, ev) ==
     n \in { n \in EnergyGroups : Ok(ev.E, LineMacro[n]) /\ ~Between(ev, n, Val(ev.E, LineMacro[n])) } }
   \cup
   { [prop |-> "C10", line |-> i, fn |-> "RadRate", Z |-> ev.Z, group |-> n,
-     got |-> [ok |-> Ok(ev.RR, LineMacro[n]), v |-> FStr(Val(ev.RR, LineMacro[n]))], want |-> {Show(RateWant(ev, n))}] :
-    n \in { n \in RateGroups : ~Agree(RateWant(ev, n), Ok(ev.RR, LineMacro[n]), Val(ev.RR, LineMacro[n])) } }
+     got |-> [ok |-> Ok(ev.RR, LineMacro[n]), v |-> FStr(Val(ev.RR, LineMacro[n]))], want |-> {Show(GroupRateWant(ev, n))}] :
+    n \in { n \in RateGroups : ~Agree(GroupRateWant(ev, n), Ok(ev.RR, LineMacro[n]), Val(ev.RR, LineMacro[n])) } }
 Judged == JudgedWith(BadOf)
 Static == c = 0 => (GroupStructureOK \/ PrintT("MISMATCH " \o ToJson([prop |-> "C10", layer |-> "spec", why |-> "line group structure / Siegbahn alias outside its series"])))
 ============================================================================
